@@ -190,7 +190,7 @@ def cross_variant_oracle(traces, pid="C14"):
             if cur is None or not l.startswith("E ") or " => " not in l:
                 continue
             f = l.split()
-            if f[1] in ("open", "close", "stat", "files", "pos", "batch", "merge", "backup", "dir"):
+            if f[1] in ("open", "close", "stat", "files", "pos", "batch", "merge", "backup", "dir", "hintcheck"):
                 continue
             res = l.split(" => ", 1)[1].split(" ;; ")[0].strip()
             groups[cur.split(".")[0]][cur].append((f[1], res))
@@ -277,6 +277,43 @@ def corr_damage(pid, tier, seed):
             "extra_engine_flips": flips}
 
 
+def corr_iter(pid, tier, seed):
+    rundir = _rundir(pid)
+    scen = corpus_scenarios(pid)
+    s, hist = gen_scripts("itergen", seed, 150 if tier == "quick" else 6000, rundir)
+    scen.extend(s)
+    for i, sc in enumerate(scen):
+        sc[0] = "S %d" % i
+    r = run_scripts(pid, rundir, scen, dflags="-noevents")
+    idx = {str(i): sc for i, sc in enumerate(scen)}
+    oracle = [o for o in r["oracle"] if o.split()[1] in ("C10", "C01", "C14")]
+    sample = scen[len(scen) // 2] if scen else []
+    return {"evaluations": len(scen), "distinct_nontrivial": nontrivial_count(scen, lambda sc: sum(1 for l in sc if l.startswith("E itseek") or l.startswith("E itnext")) >= 3),
+            "rule": "harness/vh itergen: key sets of 0-40 keys over a three-letter alphabet, all index types and shard counts (drawn with the configuration), both directions, prefixes of length 0-3, legal call sequences (the generator simulates the cursor: every Seek target at or ahead of it), writes interleaved after creation, several iterators per scenario, ListKeys and Fold; (Valid, Key, Value) after every call compared between the real engine, the model and the reference iterator of the oracle; non-trivial = at least three Seek/Next calls; distinct by md5",
+            "samples": [sample[:30]], "hist": hist, "observations_compared": r["checked"],
+            "mismatches": r["mismatches"], "oracle": oracle, "errors": r["errors"], "scen_index": idx}
+
+
+def corr_merge_results(a, b):
+    """Two correspondence runs of one property: add up the counts, concatenate the findings."""
+    out = dict(a)
+    for k in ("evaluations", "distinct_nontrivial", "observations_compared"):
+        out[k] = a.get(k, 0) + b.get(k, 0)
+    for k in ("mismatches", "oracle", "errors"):
+        out[k] = list(a.get(k, [])) + list(b.get(k, []))
+    out["rule"] = a["rule"] + " || second part: " + b["rule"]
+    out["samples"] = a.get("samples", []) + b.get("samples", [])
+    h = dict(a.get("hist", {}))
+    for k, v in b.get("hist", {}).items():
+        h[k] = h.get(k, 0) + v
+    out["hist"] = h
+    idx = dict(a.get("scen_index", {}))
+    for k, v in b.get("scen_index", {}).items():
+        idx["it" + k] = v
+    out["scen_index"] = idx
+    return out
+
+
 NOEV = "-noevents -skip files,stat,pos"
 
 REGISTRY = {
@@ -321,6 +358,12 @@ REGISTRY = {
                         "the directory lock is not part of the engine model (C16); the generated scenarios open every copy (while the source directory exists) under an independently chosen configuration and write to it",
                         "file-system calls do not fail"],
     },
+    "C10": {
+        "corr": lambda tier, seed: corr_iter("C10", tier, seed),
+        "assumptions": ["container/heap is abstracted by its contract (items[0] is a minimum of the live cursors after Init/Push/Pop), google/btree, huandu/skiplist and the sorted slice of the hash-map iterator by their ordered-set contracts",
+                        "the assignment of keys to shards is an arbitrary function in the theorem (xxhash in the implementation, another function in the driver: the observables do not depend on it)",
+                        "every Seek target lies at or ahead of the cursor in iteration order, as the property requires; backward seeks are not generated"],
+    },
     "C12": {
         "corr": lambda tier, seed: corr_damage("C12", tier, seed),
         "assumptions": ["theorems: no panic and termination of all readers on arbitrary bytes; every accepted chunk carries the checksum of its own bytes; every accepted record is exactly its bytes; a damaged checksum field is always detected; a damaged type/payload byte is detected for every checksum function that separates strings differing in one byte (true of CRC-32, assumed); a damaged length field re-delimits the chunk and is covered by the exhaustive sweeps only",
@@ -335,8 +378,10 @@ REGISTRY = {
                         "the invariant theorem covers merge-free histories; Merge only rotates (flushing) and writes into the side directory"],
     },
     "C14": {
-        "corr": lambda tier, seed: corr_engine("C14", tier, seed, "restarts,batches,merges,bigvals", 60, 1500, ops=25,
-                                               dflags=NOEV, oracle_props=["C14"], extra="-variants 3"),
+        "corr": lambda tier, seed: corr_merge_results(
+            corr_engine("C14", tier, seed, "restarts,batches,merges,bigvals", 60, 1500, ops=25,
+                        dflags=NOEV, oracle_props=["C14"], extra="-variants 3"),
+            corr_iter("C14", tier, seed)),
         "assumptions": ["the engine model has no index type / shard count parameter: every real configuration is compared with the same model run, and the lock-step variants with each other",
                         "byte-identical file layout across sync strategy / I/O type is not proved; layouts are compared with the model (positions, file sizes) in the C17/C11 checks"],
     },
